@@ -62,6 +62,24 @@ CLAIMED['C07'] = dict(
          'OS/stream behaviour is out of reach of this technique.',
     ref='5/C07, 4.4')
 
+CLAIMED['C09'] = dict(
+    category='model_checking',
+    technique='product of implementation machine (linked abstract execution) and specification machine (PEG formalism on the documented expansion) under a shared answer oracle',
+    text='EQUIV (DESIGN.md 4.6): every combinator the reference documents as equivalent to a combination (if_must, if_must_else, if_then_else, list*, list_must, list_tail, minus, must, '
+         'opt_must, pad, pad_opt, partial, rep, rep_max, rep_min, rep_min_max, rep_opt, star_must, strict, star_strict, star_partial, until, separated_seq, if_then, rematch) is '
+         'instantiated over opaque sub-rules (arities 1-3, bounds 0..4, both rewind modes) and compared with the documented expansion for every answer history up to the question '
+         'bound: same result, same consumed prefix, same raised rule. Sub-rules that consume before failing, nullable and raising sub-rules are all produced by the oracle - the '
+         'cases the unit tests never build. The doc clauses are re-checked against doc/Rule-Reference.md each run. Byte-level rules of the property are decided by the language engine (see notes).',
+    ref='4.6, 5/C09')
+CLAIMED['C01'] = dict(
+    category='model_checking',
+    technique='EQUIV against the PEG formalism + cursor typestate (REWIND) + frame forwarding (FRAME) + dispatch protocol (HOOKS), by induction over grammar structure',
+    text='The seven classical operators are compared with the PEG formalism under an answer oracle (arities 1-3, both rewind modes: result, consumed prefix, apply mode of every '
+         'successful sub-match); their bodies and the atoms satisfy the rewind contract; A/Action/Control/states are forwarded unchanged (at/not_at force nothing); the dispatch returns '
+         'the rule result, void actions cannot change it and the top-level rewind mode only decides who rewinds. Each rule body is verified once against contract-abiding sub-rules, so the '
+         'statement holds for all grammars (including recursive ones) and all inputs as partial correctness.',
+    ref='5/C01')
+
 NOT_YET = 'check not built yet in this round (see DESIGN.md section 10 for the order of construction); no claim is made'
 
 NA_REASONS = {}
